@@ -112,6 +112,11 @@ def World.get (w : World) (i : Nat) : Conn := w.conns.getD i {}
 def World.upd (w : World) (i : Nat) (f : Conn → Conn) : World :=
   { w with conns := w.conns.modify i f }
 
+/-- ghost: an application callback is being invoked for connection `i`; counts the callbacks that follow the
+    connection's disconnected event (C10: there must be none) -/
+def World.noteEvent (w : World) (i : Nat) : World :=
+  w.upd i fun c => { c with otherAfterDisc := c.otherAfterDisc + (if c.disconnectedSeen > 0 then 1 else 0) }
+
 def cn (i : Nat) : String := s!"c{i}"
 
 /-! ### comms::connection over the adaptor -/
@@ -252,7 +257,7 @@ def httpEvent (fuel : Nat) (w : World) (i : Nat) (ev : Nat) : World :=
     else if !c.inHttp then w
     else if ev == 1 then
       if w.opts.senth || w.opts.chunkedResp then
-        let w := (w.upd i fun c => { c with otherAfterDisc := c.otherAfterDisc + (if c.disconnectedSeen > 0 then 1 else 0) })
+        let w := w.noteEvent i
         let w := w.emit s!"ev sent {cn i}"
         match (w.get i).plan with
         | [] => w
@@ -405,7 +410,7 @@ def requestHandler (fuel : Nat) (w : World) (i : Nat) : World :=
   | .router => routeRequest fuel w i
   | p =>
     let c := w.get i
-    let w := (w.emit s!"ev request {cn i} {reqFields c.rx}")
+    let w := (w.noteEvent i).emit s!"ev request {cn i} {reqFields c.rx}"
     let w := { w with k := w.k + 1 }
     if p == .sync then
       if c.rx.request.headers.isChunked && w.opts.chunkh then w else appAnswer fuel w i
@@ -425,7 +430,7 @@ def receiveLoop (fuel : Nat) (w : World) (i : Nat) : Nat → Bytes → World
       let w := w.upd i fun c => { c with rx := p.1 }
       let rest := p.2.1
       let invalidCase (w : World) : World :=
-        let w := if w.opts.invh then w.emit s!"ev invalid {cn i} code={(w.get i).rx.code}"
+        let w := if w.opts.invh then (w.noteEvent i).emit s!"ev invalid {cn i} code={(w.get i).rx.code}"
           else
             let w := (httpSendResponse fuel w i).1
             if w.opts.autodisc then disconnectConn fuel w i else w
@@ -449,7 +454,7 @@ def receiveLoop (fuel : Nat) (w : World) (i : Nat) : Nat → Bytes → World
       | .expectContinue =>
         let w :=
           if w.opts.conth then
-            let w := w.emit s!"ev continue {cn i} {reqFields (w.get i).rx}"
+            let w := (w.noteEvent i).emit s!"ev continue {cn i} {reqFields (w.get i).rx}"
             if w.opts.policy != .deferred then
               let st : Int := if w.opts.contReject then 417 else 100
               (httpSend fuel w i st (Enc.reasonPhrase st) [] [] 0).1
@@ -461,7 +466,7 @@ def receiveLoop (fuel : Nat) (w : World) (i : Nat) : Nat → Bytes → World
       | .chunk =>
         let w := if w.opts.chunkh then
             let k := (w.get i).rx.chunk
-            let w := w.emit s!"ev chunk {cn i} {chunkFields k}"
+            let w := (w.noteEvent i).emit s!"ev chunk {cn i} {chunkFields k}"
             if w.opts.policy == .sync && k.isLast then appAnswer fuel w i else w
           else w
         let w := if (w.get i).rx.chunk.isLast then w.upd i fun c => { c with rx := c.rx.clear } else w
